@@ -229,7 +229,7 @@ Fixpoint compile (e : hexpr) (c : cst) {struct e} : result * cst :=
           let '(fin, c4) :=
             match final with
             | None => ([], c3)
-            | Some f => let '(rf, c4) := branch f rempty None c3 in (rs (radd rf (expr_as_stmt rf)), c4)
+            | Some f => let '(rf, c4) := branch f rempty None c3 in (or_pass (rs (radd rf (expr_as_stmt rf))), c4)
             end in
           let body_stmts :=
             or_pass (match orel with
